@@ -6,7 +6,7 @@ from props import pyref
 class P(StreamProperty):
     pid = 'C05'
     module = 'OpenFecVerif.Props.C05'
-    theorems = ['C05_indep_global', 'C05_invalid_seed_keeps_state', 'C05_staircase', 'C05_rejects_large_N1', 'C05_goodRand', 'C05_matrix_wf', 'C05_configured_session', 'C05_column_mapping']
+    theorems = ['C05_indep_global', 'C05_invalid_seed_keeps_state', 'C05_staircase', 'C05_rejects_large_N1', 'C05_goodRand', 'C05_matrix_wf', 'C05_configured_session', 'C05_column_mapping', 'C05_construction_total']
     rule = ('every case creates an encoder and a decoder session with the same (k, r, N1, seed) after a random prefix of other sessions '
             '(other parameters, other codecs, and near twins that differ from the target in exactly one of N1, seed, k, r) that leave the global PRNG and any other process-wide state in arbitrary states, and dumps both parity-check matrices; they are compared '
             'with the Lean transcription of RFC 5170 (correspondence) and with an independent Python transcription (oracle); grid k in {1..12,31,32,33,100,1000}, '
@@ -80,7 +80,7 @@ class P(StreamProperty):
         ks = list(range(1, 13)) + [31, 32, 33, 100] + ([1000] if tier == 'quick' else [1000, 5000, 20000])
         rs = list(range(3, 13)) + [50] + ([500] if tier == 'quick' else [500, 5000])
         seeds = [1, 2, 16807, 2 ** 31 - 2]
-        cases = []; i = 0
+        cases = []; i = 0; combo = 0
         for k in ks:
             for r in rs:
                 if k + r > 50000: continue
@@ -89,7 +89,8 @@ class P(StreamProperty):
                 for N1 in sorted(set([3, 4, 5, 7, r])):
                     if N1 > r or N1 > 255: continue
                     if N1 * k > 200000: continue
-                    for sd in [seeds[i % 4], rng.randint(1, 2 ** 31 - 2)] if tier == 'quick' else seeds + [rng.randint(1, 2 ** 31 - 2) for _ in range(3)]:
+                    combo += 1   # the fixed seeds rotate per configuration (both ends of the legal range come up every fourth one)
+                    for sd in [seeds[combo % 4], rng.randint(1, 2 ** 31 - 2)] if tier == 'quick' else seeds + [rng.randint(1, 2 ** 31 - 2) for _ in range(3)]:
                         cfg = gens.Cfg('ldpc', k, r, length=1, N1=N1, seed=sd)
                         b = self.prefix(rng, cfg)
                         # encoder session 8, decoder session 9 (odd N1: the decoder's matrix is untouched; even N1: compared through the model)
